@@ -1,8 +1,9 @@
-import NomtModel.Api.Exec
+import NomtModel.Api.ExecOverlay
 /-!
 # C11 — Overlays behave exactly like the commits they stand for  (first claim)
 
-Theorems over `Api/Exec.lean`; the chain-commit refinement (T11.3) is being added.
+Theorems over `Api/Exec.lean` (helper lemmas and the definitions `ValidChain`, `commitSeq`, `directSeq`,
+`core` are in `Api/ExecOverlay.lean`).
 -/
 namespace Nomt.C11
 open Nomt Nomt.Api
@@ -30,5 +31,72 @@ theorem T11_2a_empty_chain_ok (s : St Node VH) : newLive s [] = .ok [] := rfl
 theorem T11_2b_unknown_refused (s : St Node VH) (p : Nat) (rest : List Nat) (h : s.ov? p = none) :
     newLive s (p :: rest) = .error .notAncestor := by
   simp [newLive, h]
+
+/-- T11.3: committing a valid chain of overlays oldest-first.  For a chain `[o_n, …, o_1]` (child first) of
+pairwise distinct overlay ids that is valid in `s` (`ValidChain`: every overlay exists and is held, `o_1`
+passes the parent check and is based on the current root, `o_{i+1}.parent = some o_i` and
+`o_{i+1}.prevRoot = o_i.root`), committing `o_1, …, o_n` in this order returns `ok` every time, and the
+resulting committed state — values, root, rollback log, sequence number, overlay marker — is exactly the
+one that direct commits of the same batches produce; in particular the values are the chain's list view
+`viewKV s chain` and the root is the youngest overlay's root; every overlay of the chain ends up marked
+committed with its handle consumed. -/
+theorem T11_3_chain_commit (s : St Node VH) (chain : List Nat) (hnd : chain.Nodup) (hv : ValidChain s chain) :
+    (commitSeq s chain.reverse).1 = true ∧
+    obs (commitSeq s chain.reverse).2 = obs (directSeq s s chain.reverse) ∧
+    (commitSeq s chain.reverse).2.kv = viewKV s chain ∧
+    (commitSeq s chain.reverse).2.root = baseRoot s chain ∧
+    (∀ o ∈ chain, ∃ ov, s.ov? o = some ov ∧
+      (commitSeq s chain.reverse).2.ov? o = some { ov with held := false, committed := true }) := by
+  obtain ⟨h1, h2, h3⟩ := commitSeq_chain s chain hnd hv
+  have ho := obs_of_core h2
+  refine ⟨h1, ho, ?_, ?_, h3⟩
+  · have : (commitSeq s chain.reverse).2.kv = (directSeq s s chain.reverse).kv := congrArg (·.1) ho
+    rw [this, directSeq_kv_viewKV]
+  · have : (commitSeq s chain.reverse).2.root = (directSeq s s chain.reverse).root := congrArg (·.2.1) ho
+    rw [this]
+    apply directSeq_root_baseRoot
+    intro c rest e
+    subst e
+    exact hv.head_some
+
+/-- T11.3 for a single overlay, spelled out: a held overlay without uncommitted parent on the current root
+commits `ok`, the values become `kvApply s.kv changes` and the root the overlay's root -/
+theorem T11_3a_single_overlay_commit (s : St Node VH) (o : Nat) (ov : Ov Node VH) (ho : s.ov? o = some ov)
+    (hh : ov.held = true) (hp : parentOk s ov = true) (hr : ov.prevRoot = s.root) :
+    (commitOv s o).1 = .ok ∧ (commitOv s o).2.kv = kvApply s.kv ov.changes ∧ (commitOv s o).2.root = ov.root ∧
+    (commitOv s o).2.lastMarker = some o := by
+  rw [commitOv_ok s o ov ho hh hp hr.symm]
+  refine ⟨rfl, ?_, rfl, rfl⟩
+  show kvApply (dropOv s o).kv ov.changes = kvApply s.kv ov.changes
+  rw [show (dropOv s o).kv = s.kv from congrArg (·.1) (core_dropOv s o)]
+
+/-- T11.4: the per-key session view (first change along the chain, child first, else the committed value)
+equals reading the chain's list view (overlays applied oldest first), provided the committed values are
+sorted and each overlay's change keys are pairwise distinct (so that first-wins = last-wins inside one
+overlay) -/
+theorem T11_4_viewGet_eq_viewKV (s : St Node VH) (hs : KSorted s.kv) (chain : List Nat)
+    (hd : ∀ o ∈ chain, ∀ ov, s.ov? o = some ov → WDistinct ov.changes) (k : Key) :
+    viewGet s chain k = kvGet (viewKV s chain) k :=
+  viewGet_eq_kvGet_viewKV s hs chain hd k
+
+/-- T11.5: what a session built on a valid chain reads for a key is what a direct read returns after the
+chain has been committed oldest-first -/
+theorem T11_5_view_eq_after_commit (s : St Node VH) (hs : KSorted s.kv) (chain : List Nat) (hnd : chain.Nodup)
+    (hv : ValidChain s chain) (hd : ∀ o ∈ chain, ∀ ov, s.ov? o = some ov → WDistinct ov.changes) (k : Key) :
+    viewGet s chain k = kvGet (commitSeq s chain.reverse).2.kv k := by
+  rw [(T11_3_chain_commit s chain hnd hv).2.2.1]
+  exact viewGet_eq_kvGet_viewKV s hs chain hd k
+
+/-- non-vacuity: a state with two stacked held overlays; the chain `[2, 1]` is valid and commits -/
+example :
+    let s : St Nat Nat := { root := 0, ovs := [
+      { id := 2, parent := some 1, ancestors := [1], changes := [([false], some 2)], prevRoot := 10, root := 20,
+        delta := [([false], none)] },
+      { id := 1, parent := none, ancestors := [], changes := [([true], some 1)], prevRoot := 0, root := 10,
+        delta := [([true], none)] }] }
+    ValidChain s [2, 1] ∧ [2, 1].Nodup ∧ KSorted s.kv ∧ (commitSeq s [1, 2]).1 = true ∧
+      (commitSeq s [1, 2]).2.kv = [([false], 2), ([true], 1)] := by
+  intro s
+  refine ⟨⟨⟨_, _, rfl, rfl, rfl, rfl, rfl⟩, _, rfl, rfl, rfl, rfl⟩, by decide, KSorted.nil, by decide, by decide⟩
 
 end Nomt.C11
